@@ -359,6 +359,7 @@ func init() {
 				{Name: "triples", Stateful: true, ShardDepth: 1, Bounds: engine.Bounds{EnvDev: dev, InputDev: -1},
 					Rule: "L1: (f,f,f) for every representative call as three threads; same oracle; non-trivial = distinct calls reaching a scheduling point",
 					Body: func(c *engine.Ctx) {
+						c.LongExecution() // one execution that waits for the race binary: not subject to the per-execution limit
 						a := calls[c.In("f", len(calls))]
 						soloOf(a)
 						ex, res := sched.Run(c, []string{a.Name, a.Name, a.Name}, []func() string{a.Fn, a.Fn, a.Fn})
